@@ -3,11 +3,11 @@ import re
 CONFIG = dict(
     bin="c04",
     drv="drv_c04",
-    lean_modules=["MahfModel.Props.C04"],
-    namespaces=["MahfModel.Props.C04"],
-    shrink_lists=["ops"],
+    lean_modules=["MahfModel.Props.C04", "MahfModel.Props.C04Scope"],
+    namespaces=["MahfModel.Props.C04", "MahfModel.Props.C04Scope"],
+    shrink_lists=["ops", "cl", "sc", "cf", "if", "mf"],
     level="proof",
-    rule=("histories of Populations operations on a real State. Individuals carry a unique tag and an optional objective value "
+    rule=("programs of Populations operations on a real State (plain histories, and programs with scopes and failing steps). Individuals carry a unique tag and an optional objective value "
           "(evaluated with objective = tag / evaluated with a small objective shared by several individuals / not evaluated); "
           "tag and objective are printed on every read. Sites: (exh) a prefix building height 0..3 followed by every sequence of "
           "L ops (L=2 quick, 3 thorough) over a 40-op alphabet incl. arguments 2^64-1, tied and unevaluated individuals, in-place "
@@ -16,20 +16,36 @@ CONFIG = dict(
           "(edit) every in-place edit (assign, push, extend, truncate, swap_remove, remove, insert, swap, reverse, clear, retain) with "
           "every index 0..len+1 and 2^64-1 through current_mut and get_current_mut at heights 0..2; (rand) seeded random histories of "
           "length 10..60 (quick) / 10..200 (thorough) in three flavours of individuals; (scoped) random histories with every "
-          "operation executed inside 0..4 nested with_inner_state scopes; (split) populations of 0..9 or 21..48 individuals with few "
+          "operation executed inside 0..4 nested with_inner_state scopes; (scope-err) a failing step inside 1..3 nested scopes "
+          "(kinds per level: with_inner_state closure chaining its steps with `?`, Scope::new executed as a component, "
+          "ConfigurationBuilder::scope_ + Configuration::run, mixed), 0..2 populations below, 0..3 steps before the failing one, "
+          "nine failing steps (a step returning Err, a step that pushes / pops / rotates / edits and then returns Err, "
+          "RotatePopulations above the height incl. 2^64-1, Scope::new_with with a failing state_init or states_merge), skipped "
+          "steps behind it at every level, optionally an enclosing scope body that looks at the result and carries on reading, "
+          "then seven operations of the caller on the same State; (scope-rand) random programs of 4..20 (quick) / 4..40 "
+          "(thorough) top-level elements, about a third of them scope trees up to depth 3 whose bodies mix operations, "
+          "RotatePopulations above the height, (fail), (failing OP), (try ITEM) and nested scopes of all five kinds; the top "
+          "level carries on after every result and the final stack is read through the accessors; (split) populations of 0..9 or 21..48 individuals with few "
           "distinct objective values, split / interleave / split again; (deep) 15..40 populations of up to 12 individuals, rotations "
           "and peeks around the height. A history is non-trivial if it has at least 3 operations and contains a rotation, peek, "
-          "interleave, split or in-place edit; distinct = distinct canonical op list."),
-    nontrivial=lambda inp: inp.count("(") >= 4 and re.search(r"rot|peek|ileave|split|edit", inp) is not None,
+          "interleave, split, in-place edit or failing step; distinct = distinct canonical op list."),
+    nontrivial=lambda inp: inp.count("(") >= 4 and re.search(r"rot|peek|ileave|split|edit|fail", inp) is not None,
     trusted_base=[
         "Vec/slice primitives (push, pop, last, get, rotate_right, truncate, swap_remove, remove, insert, swap, reverse, clear, "
         "retain, extend) are represented by their list semantics; usize arguments by naturals (the generator goes up to 2^64-1)",
-        "individuals are a tag plus an optional natural objective value; RefCell borrow of Populations inside State and the "
-        "parent-chain lookup from child scopes are not modelled here (C02/C03): `(in k op)` is modelled as `op`",
+        "individuals are a tag plus an optional natural objective value; RefCell borrows of Populations inside State are not "
+        "modelled here (C02); the registry chain is modelled only as far as Populations is concerned (each registry holds one or "
+        "not; find walks to the root; with_inner_state = take, child, body, restore, then the result); the legacy `(in k op)` "
+        "is modelled as `op`",
+        "harness step components (NodeComp) standing for the steps of a scope body: they perform the operation through the "
+        "public API / the real utility component, record its output by program position and return Err where the program "
+        "says so; Block, Scope, ConfigurationBuilder, Configuration::run and State::with_inner_state are the real ones",
         "witnesses read off the real run: the two halves produced by SplitPopulationByObjectiveValue (accepted iff a sorted "
         "permutation with the prescribed sizes, otherwise the model answers with the stable sort) and the stack height after a "
         "panic inside a component (accepted iff untouched or code-shaped partial state)"],
-    assumptions=["SplitMix64-seeded generator; itertools::interleave modelled as alternate-until-both-exhausted; "
+    assumptions=["panics never cross a scope boundary in the generated programs (every operation is caught where it is "
+                 "executed); what a State is worth after a panic unwound through with_inner_state is not part of the property",
+                 "SplitMix64-seeded generator; itertools::interleave modelled as alternate-until-both-exhausted; "
                  "sort_unstable_by_key modelled as 'any ascending order' (legal-witness nondeterminism)"],
 )
 CONFIG.update(
@@ -44,12 +60,22 @@ CONFIG.update(
                 "(edit_touches_top_only); RotatePopulations errs (never panics) on insufficient height; "
                 "SplitPopulationByObjectiveValue, whatever order the unstable sort leaves ties in, keeps the individuals, cuts "
                 "ceil(n/2)/floor(n/2), orders the halves by objective (split_spec), panics exactly on < 2 individuals or an "
-                "unevaluated one (split_panics_iff). The model is tied to /repo by running the real Populations/State/components on "
+                "unevaluated one (split_panics_iff). Across failing steps (Props/C04Scope): on every registry chain in which "
+                "Populations is found, every program of operations, failing steps, callers that carry on and scopes of every kind "
+                "nested to any depth leaves the chain as it was with only the stack replaced, and stack, outputs and results are "
+                "those of the same program on a plain stack with transparent scopes (scoped_program_refines); whatever a scope's "
+                "body does and however it ends (Ok, Err at any depth, failing state_init / states_merge) the caller gets its "
+                "registry chain back, with_inner_state does not panic, and every later operation answers as the plain stack "
+                "(state_survives_failing_scope); scopes and failing steps only decide which operations run: every program "
+                "amounts to a plain history that is a subsequence of its operations (failing_steps_only_cut_the_history); the "
+                "first failing step ends the body with its own effect on the stack kept (abort_at_first_error); "
+                "scope_hook_failures; plain histories are the special case (top_level_history_is_run). The model is tied to /repo by running the real Populations/State/components on "
                 "exhaustive short and seeded long histories and diffing against the compiled model (K) and the abstract stack (O)."),
     level_note=("Trusted: Lean kernel; Vec/slice primitives represented by list semantics; harness + driver printing. "
                 "Individuals are tag + optional objective. Nondeterminism over legal witnesses: order of equal objective values in a "
                 "split; stack state after a panic inside InterleavePopulations/SplitPopulationByObjectiveValue (untouched or already "
-                "popped — neither property nor docs promise either). partial: scope lookup (parent chain) and RefCell borrows are "
-                "outside this model; the scoped site only checks that the stack behaves the same from inside child scopes. "
+                "popped — neither property nor docs promise either). partial: RefCell borrows are outside this model; of the "
+                "registry only the part that concerns Populations is modelled (no shadowing Populations inserted inside a scope, no "
+                "State::holding::<Populations>); a panic that unwinds through with_inner_state is not generated. "
                 "The theorems are about the model; agreement with the code is checked on the generated histories only."),
 )
